@@ -78,6 +78,27 @@ func verifBoundID(criteria graph.Criteria, symbol string) (id graph.ID, found in
 	return id, found
 }
 
+// verifKindsAdmit: every kind matcher on the relationship among the conjuncts admits kind.
+func verifKindsAdmit(criteria graph.Criteria, kind graph.Kind) bool {
+	conjunction, ok := criteria.(*cypher.Conjunction)
+	if !ok {
+		return true
+	}
+	for _, expression := range conjunction.Expressions {
+		matcher, ok := expression.(*cypher.KindMatcher)
+		if !ok {
+			continue
+		}
+		if variable, ok := matcher.Reference.(*cypher.Variable); !ok || variable.Symbol != query.EdgeSymbol {
+			continue
+		}
+		if !matcher.Kinds.ContainsOneOf(kind) {
+			return false
+		}
+	}
+	return true
+}
+
 type verifPatternCursor struct {
 	results chan graph.DirectionalResult
 }
@@ -92,6 +113,9 @@ func (s *verifPatternQuery) FetchDirection(direction graph.Direction, delegate f
 	verifrt.Assert(startBound+endBound == 1, "an expansion query binds exactly one end of the relationship, once")
 	results := make(chan graph.DirectionalResult, len(s.db.edges))
 	for _, edge := range s.db.edges {
+		if !verifKindsAdmit(s.criteria, edge.Kind) {
+			continue
+		}
 		if startBound == 1 && edge.StartID == startID {
 			results <- graph.NewDirectionalResult(direction, edge, s.db.nodes[int(edge.EndID)])
 		}
@@ -149,4 +173,72 @@ func VerifC17Pattern(n, workers, preemptions int) {
 			verifrt.Assert(delivered[i] == 0, "no inner node is delivered as a terminal")
 		}
 	}
+}
+
+// VerifC17PatternSeq: a two-step pattern with depth bounds, expanded sequentially from the
+// root (the reference the statement compares parallel runs with): Outbound(K1) followed by
+// OutboundWithDepth(min, max, K2) over a tree whose root edge has kind K1 and every other
+// edge kind K2 (so the split of a path into the two steps is unambiguous). Delivered are
+// exactly the root paths with h K2 hops where h >= min and the path cannot be extended
+// within the bounds (its end is a leaf, or h == max), each once, each a real path.
+func VerifC17PatternSeq() {
+	// parent of node i (node 0 is the root, node 1 hangs off it by the K1 edge)
+	parents := []int{-1, 0, 1, 2, 3, 1, 5, 2}
+	n := len(parents)
+	db := &verifPatternDatabase{}
+	for i := 0; i < n; i++ {
+		db.nodes = append(db.nodes, graph.NewNode(graph.ID(i), graph.NewProperties()))
+	}
+	k1, k2 := graph.StringKind("K1"), graph.StringKind("K2")
+	for child := 1; child < n; child++ {
+		kind := k2
+		if parents[child] == 0 {
+			kind = k1
+		}
+		db.edges = append(db.edges, graph.NewRelationship(graph.ID(100+child), graph.ID(parents[child]), graph.ID(child), graph.NewProperties(), kind))
+	}
+	minDepth := 1 + verifrt.NondetChoice("min depth of the second step - 1", 3)
+	maxDepth := verifrt.NondetChoice("max depth of the second step (0: unbounded)", 4)
+	verifrt.Assume(maxDepth == 0 || maxDepth >= minDepth)
+	delivered := make([]int, n)
+	driver := NewPattern().Outbound(query.KindIn(query.Relationship(), k1)).OutboundWithDepth(minDepth, maxDepth, query.KindIn(query.Relationship(), k2)).Do(func(terminal *graph.PathSegment) error {
+		path := terminal.Path()
+		delivered[int(terminal.Node.ID)]++
+		verifrt.Assert(len(path.Nodes) == len(path.Edges)+1 && path.Nodes[0].ID == 0, "a delivered path starts at the root")
+		for i, edge := range path.Edges {
+			verifrt.Assert(edge.StartID == path.Nodes[i].ID && edge.EndID == path.Nodes[i+1].ID, "every edge of a delivered path joins its neighbouring nodes")
+		}
+		return nil
+	})
+	tx := &verifPatternTransaction{db: db}
+	worklist := []*graph.PathSegment{graph.NewRootPathSegment(db.nodes[0])}
+	for steps := 0; len(worklist) > 0; steps++ {
+		verifrt.Assert(steps < 64, "sequential expansion of a finite tree ends")
+		next := worklist[0]
+		worklist = worklist[1:]
+		descendants, err := driver(context.Background(), tx, next)
+		verifrt.Assert(err == nil, "the driver does not fail")
+		worklist = append(worklist, descendants...)
+	}
+	for i := 1; i < n; i++ {
+		// K2 hops from node 1 down to node i (-1: not below node 1)
+		hops, at := 0, i
+		for at != 1 && at > 0 {
+			at = parents[at]
+			hops++
+		}
+		leaf := true
+		for c := 1; c < n; c++ {
+			if parents[c] == i {
+				leaf = false
+			}
+		}
+		want := 0
+		within := maxDepth == 0 || hops <= maxDepth
+		if at == 1 && hops >= minDepth && within && (leaf || hops == maxDepth) {
+			want = 1
+		}
+		verifrt.Assert(delivered[i] == want, "exactly the maximal paths within the depth bounds are delivered, each once")
+	}
+	verifrt.Assert(delivered[0] == 0, "the root alone is not delivered")
 }
